@@ -356,10 +356,19 @@ where
     // moves to the first record positon, ignoring newline characters
     #[inline(never)]
     fn init(&mut self) -> Result<bool, Error> {
-        if let Some((line_num, consumed, pos, byte)) = self.first_byte()? {
+        let first = match self.first_byte() {
+            Ok(first) => first,
+            Err(e) => {
+                // the lines and bytes skipped so far would be counted
+                // from zero again in a retry: errors are final
+                self.state = State::Finished;
+                return Err(e);
+            }
+        };
+        if let Some((line_num, pos, byte)) = first {
             if byte == b'>' {
                 self.buf_pos.start = pos;
-                self.position.byte = (consumed + pos) as u64;
+                self.position.byte += pos as u64;
                 self.position.line = line_num as u64;
                 self.search_pos = pos + 1;
                 return Ok(true);
@@ -375,10 +384,10 @@ where
         Ok(false)
     }
 
-    // Returns (line number, bytes removed from the buffer so far, position in buffer, byte)
-    fn first_byte(&mut self) -> Result<Option<(usize, usize, usize, u8)>, Error> {
+    // Returns (line number, position in buffer, byte). `self.position.byte` is advanced
+    // by the number of bytes removed from the buffer.
+    fn first_byte(&mut self) -> Result<Option<(usize, usize, u8)>, Error> {
         let mut line_num = 0;
-        let mut consumed = 0;
 
         while fill_buf(&mut self.buf_reader)? > 0 {
             let mut pos = 0;
@@ -386,7 +395,7 @@ where
             for line in self.get_buf().split(|b| *b == b'\n') {
                 line_num += 1;
                 if !line.is_empty() && line != b"\r" {
-                    return Ok(Some((line_num, consumed, pos, line[0])));
+                    return Ok(Some((line_num, pos, line[0])));
                 }
                 pos += line.len() + 1;
                 last_line_len = line.len();
@@ -395,7 +404,7 @@ where
             // it is moved to the start of the buffer and searched (and counted) again
             line_num -= 1;
             let n = pos - 1 - last_line_len;
-            consumed += n;
+            self.position.byte += n as u64;
             self.buf_reader.consume(n);
             self.buf_reader.make_room();
         }
